@@ -149,6 +149,11 @@ def run(ctx, idx):
            "no cached helper on the serialisation path" if not _memo else "`%s` is cached with `@%s`: values that compare equal but are written differently (True / 1 / 1.0, 0.0 / -0.0) share one cache entry, so the text of a value depends on what was serialised earlier in the process" % (_memo[0][0].name, _memo[0][1]))
     if _memo:
         return
+    # the serialiser writes every tuple value between quotes: what it quotes must BE text after cleaning, or the reloaded program
+    # holds text where the original held a number
+    from .C20 import tuple_text_to_text
+
+    _und_j = tuple_text_to_text(ctx, idx, "C15.j", consequence=" - and to_string writes every tuple value as a quoted string, so the same program written out and loaded again holds text there: the reloaded program is not the one that was serialised")
     ctx.assume("str()/repr() of int prints -?d+; of float prints d+.d+, d(.d+)?e[+-]dd+, inf or nan (reference languages fixed by Python)")
     ctx.rule("C15.a", "Numbers: every text the serialiser can print for an int or float is read back as a number: L_repr_int ⊆ L(INT) and L_repr_float ⊆ L(FLOAT) ∪ (single plain token that float() accepts).")
     ctx.rule("C15.b", "Strings are escaped for the reader: a str value reaches the output between quotes only through an escaping step handling the backslash and then the quote; reference names are emitted bare only for Result-typed parameters.")
@@ -196,6 +201,52 @@ def run(ctx, idx):
             ctx.violate("C15.f", con_f, K.rel(ts), line_, text_)
     else:
         ctx.hold("C15.f", con_f, K.rel(ts), ts.node.lineno, "serialised values are only inserted into the surrounding layout")
+    # free text of the model (a command's metadata values, its display name) reaches the output only as a VALUE, through the
+    # serialiser's own helpers (quoted and escaped).  Formatted into the layout itself - a comment line, a heading - it is outside
+    # every quoted string: a line break in it ends the comment and the rest is read as program text
+    ctx.rule("C15.k", "Free text of the model (metadata values, display names) reaches the serialised text only through the serialiser's quoting helpers: it is never formatted into the layout itself (a comment line ends at the first CR or LF of the text; what follows is parsed as commands).")
+    src_ts = getattr(ts, "node_orig", None) or ts.node
+    nested_ = {n_.name for n_ in ast.walk(src_ts) if isinstance(n_, ast.FunctionDef) and n_ is not src_ts} | set(helpers_)
+    FREE = ("metadata", "display_name")
+    bad_k = None
+    for fn_ in [src_ts] + [n_ for n_ in ast.walk(src_ts) if isinstance(n_, ast.FunctionDef) and n_ is not src_ts]:
+        tainted = {}
+        body_nodes = [n_ for n_ in ast.walk(fn_) if not any(n_ is x_ for g_ in ast.walk(fn_) if isinstance(g_, ast.FunctionDef) and g_ is not fn_ for x_ in ast.walk(g_))]
+
+        def _free(e_):
+            for x_ in ast.walk(e_):
+                if isinstance(x_, ast.Call) and isinstance(x_.func, ast.Name) and x_.func.id in nested_:
+                    return False if x_ is e_ else None  # handed to a helper: judged there
+            for x_ in ast.walk(e_):
+                if isinstance(x_, ast.Attribute) and x_.attr in FREE:
+                    return True
+                if isinstance(x_, ast.Name) and x_.id in tainted:
+                    return True
+            return False
+        chg = True
+        while chg:
+            chg = False
+            for st_ in body_nodes:
+                if isinstance(st_, ast.Assign) and len(st_.targets) == 1 and isinstance(st_.targets[0], ast.Name) and st_.targets[0].id not in tainted and _free(st_.value):
+                    if not any(isinstance(x_, ast.Call) and isinstance(x_.func, ast.Name) and x_.func.id in nested_ for x_ in ast.walk(st_.value)):
+                        tainted[st_.targets[0].id] = st_
+                        chg = True
+        for st_ in body_nodes:
+            pieces = []
+            if isinstance(st_, ast.Call) and isinstance(st_.func, ast.Attribute) and st_.func.attr == "format" and isinstance(st_.func.value, ast.Constant) and isinstance(st_.func.value.value, str):
+                pieces = list(st_.args) + [k_.value for k_ in st_.keywords]
+            elif isinstance(st_, ast.JoinedStr):
+                pieces = [v_.value for v_ in st_.values if isinstance(v_, ast.FormattedValue)]
+            elif isinstance(st_, ast.BinOp) and isinstance(st_.op, (ast.Add, ast.Mod)) and (isinstance(st_.left, ast.Constant) and isinstance(st_.left.value, str) or isinstance(st_.right, ast.Constant) and isinstance(st_.right.value, str)):
+                pieces = [st_.left, st_.right] if isinstance(st_.op, ast.Add) else ([st_.right] if not isinstance(st_.right, ast.Tuple) else list(st_.right.elts))
+            for pc_ in pieces:
+                if isinstance(pc_, ast.Call) and isinstance(pc_.func, ast.Name) and pc_.func.id in nested_:
+                    continue
+                if _free(pc_) is True and bad_k is None:
+                    bad_k = (st_, pc_)
+    ctx.ob("C15.k", "%s::free-text-is-quoted" % ts.key, K.rel(ts), bad_k[0].lineno if bad_k else ts.node.lineno, bad_k is None,
+           "metadata / display names reach the output only through the serialiser's helpers" if bad_k is None else
+           "`%s` puts `%s` - free text of the model - into the layout of the file, outside any quoted string: a line break (or a `#`-less second line) in it is read back as program text, so the written file does not load, or loads with other commands" % (K.src(bad_k[0])[:50], K.src(bad_k[1])[:40]))
     L = grammar.Lexicon(idx)
     dfas = {r.token: RL.dfa(r.pattern) for r in L.rules if not r.ignored and r.name != "t_newline"}
     # ------------------------------------------------------------------ a
@@ -537,5 +588,7 @@ def run(ctx, idx):
                     if "result_name" in mine and "name" in mine and mine.index("result_name") < mine.index("name"):
                         ok = True
     ctx.ob("C15.d", "%s::heads" % ts.key, rel, ts.node.lineno, ok, "each command is written as result_name = name(...)" if ok else "a command is not written as `result_name = command name(...)`")
+    if _und_j:
+        raise AnalysisError(_und_j[0])
     if _SOFT15:
         raise AnalysisError(_SOFT15[0])
